@@ -215,6 +215,15 @@ Definition s9_ok (c : ocase) : bool :=
   (unlock_faulted c || (Nat.eqb (oc_held c) 0 && Nat.eqb (oc_recorded c) 0 && negb (rescued c))) &&
   Nat.eqb (oc_after c) 0.
 
+(** free-running runs (no gate, real goroutines on one FileStorage directory; only the issuer's
+    entry / exit are recorded, in the order of their time stamps): spans disjoint (S1), every caller
+    succeeded, storage was empty so exactly one issuance happened (S2), nothing held or recorded *)
+Definition is_iss_start (o : ostep) : bool := match o_op o with OIssS _ => Nat.eqb (o_out o) 0 | _ => false end.
+Definition free_ok (c : ocase) : bool :=
+  spans_ok [] (oc_steps c) && forallb (Z.eqb 0) (oc_results c) &&
+  Nat.eqb (count is_iss_start (oc_steps c)) 1 &&
+  Nat.eqb (oc_held c) 0 && Nat.eqb (oc_recorded c) 0.
+
 Definition spec_ok (c : ocase) : bool :=
   match oc_mode c with
   | 0 => spans_ok [] (oc_steps c) && s2_ok c && s3_ok c && s4_ok c
@@ -222,11 +231,12 @@ Definition spec_ok (c : ocase) : bool :=
   | 2 => s2_ok c
   | 3 => s3_ok c
   | 4 => s4_ok c
+  | 6 => free_ok c
   | _ => s9_ok c
   end.
 
 Definition compares (c : ocase) : bool :=
-  match oc_mode c with 2 | 3 | 4 => false | _ => true end.
+  match oc_mode c with 2 | 3 | 4 | 6 => false | _ => true end.
 
 (** * Wire *)
 Open Scope Z_scope.
